@@ -782,8 +782,33 @@ def run(res, tier):
     import bsearch
     nb = bsearch.check(facts, res, "C16.4.binary-search", maxcount=(64 if tier == "thorough" else 14))
     res.floor("C16.4", nb, 100, "states of the binary-search step")
-    treelevel(facts, "findGroupWithCell", "cellBlocks", res)
-    treelevel(facts, "findGroupWithLeaf", "particleGroups", res)
+    # what the tree-level lookups read besides the group containers must describe the current groups: members the tree fills from its
+    # groups and rebuild() does not refresh (rules C13.5 derived state / C13.3 construction facts, restricted to members the two lookup
+    # functions - with their helpers spliced in - name)
+    res.rule("C16.5 the tree-level lookups read no member that rebuild() leaves describing the groups before it (rules C13.5 / C13.3 restricted to the members the lookups name)")
+    import c13 as _c13
+    _sub13 = tbf.Result("C13")
+    tbf.donor_run(res, _c13, _sub13)
+    named = set()
+    for nm_ in ("findGroupWithCell", "findGroupWithLeaf"):
+        fx_ = tbf.expand_member_helpers(facts, facts.fn("TbfTree::" + nm_))
+        for y_ in walk(tbf.body(fx_)):
+            if y_.get("k") in ("MemberExpr", "CXXDependentScopeMemberExpr") and y_.get("name"):
+                named.add(y_["name"])
+    n5 = 0
+    for v_ in _sub13.violations:
+        hit_ = [m_ for m_ in named if m_ not in ("cellBlocks", "particleGroups") and re.search(r"\b%s\b" % re.escape(m_), v_["key"] + " " + v_["msg"])]
+        if v_["rule"].startswith(("C13.5", "C13.3")) and hit_:
+            n5 += 1
+            res.violation("C16.5.lookups-read-current-state", v_["file"], v_["function"], v_["key"], v_["line"], v_["msg"] + " - findGroupWithCell / findGroupWithLeaf read '%s': after a rebuild they are sent to the wrong group and report existing cells / leaves as absent" % hit_[0])
+    res.instance("C16.5.lookups-read-current-state", "members named by the lookups", "src/core/tbftree.hpp", "%s; %d of them left stale by rebuild()" % (sorted(named), n5))
+    for nm_, cont_ in (("findGroupWithCell", "cellBlocks"), ("findGroupWithLeaf", "particleGroups")):
+        try:
+            treelevel(facts, nm_, cont_, res)
+        except AnalysisBroken as e_:
+            if not hasattr(res, "deferred"):
+                res.deferred = []
+            res.deferred.append(e_)
     for q, want in (("findGroupWithCellSource", "treeSource.findGroupWithCell(inLevel,inMIndex)"), ("findGroupWithCellTarget", "treeTarget.findGroupWithCell(inLevel,inMIndex)"),
                     ("findGroupWithLeafSource", "treeSource.findGroupWithLeaf(inMIndex)"), ("findGroupWithLeafTarget", "treeTarget.findGroupWithLeaf(inMIndex)")):
         fn = facts.fn("TbfTreeTsm::" + q)
